@@ -581,3 +581,179 @@ pub fn transport(s: &[u8], proto: u8, fragmented: bool, outer: Lim, lax: bool) -
         _ => Ok(None),
     }
 }
+
+// ------------------------------------------------------------------------------------------ whole packet
+
+#[derive(Copy, Clone, PartialEq, Eq, Debug)]
+pub enum Start {
+    Ethernet,
+    Sll,
+    EtherType(u16),
+    Ip,
+}
+
+#[derive(Copy, Clone, PartialEq, Eq, Debug)]
+pub struct RExt {
+    pub kind: RL,
+    pub off: usize,
+    pub hlen: usize,
+}
+
+#[derive(Copy, Clone, PartialEq, Eq, Debug)]
+pub enum RNet {
+    Ip { off: usize, ip: RIp },
+    Arp { off: usize, len: usize },
+}
+
+#[derive(Copy, Clone, PartialEq, Eq, Debug)]
+pub struct RWalk {
+    pub link: Option<RL>,
+    pub n_exts: usize,
+    pub exts: [RExt; 3],
+    pub net: Option<RNet>,
+    pub tr: Option<(usize, RTr)>,
+    /// ether type of the innermost ether payload that was reached and its range (for payload checks)
+    pub ether_payload: Option<(u16, usize, usize)>,
+    /// strict: decoding fails with this; lax: decoding stops here and keeps what is in front of it
+    pub fault: Option<RFault>,
+    /// lax only: the ether type announced one IP version, the version nibble says the other one (the lax
+    /// decoders pick the version from the nibble; the strict decoders reject this)
+    pub ip_version_mismatch: bool,
+}
+
+/// The crate's documented stacking: link header, up to three VLAN / MACsec tags, ARP | IPv4 | IPv6,
+/// then UDP | TCP | ICMPv4 | ICMPv6 unless the IP payload is fragmented. `lax` keeps going after length
+/// over-claims the way the lax decoders document it.
+pub fn walk(start: Start, s: &[u8], lax: bool) -> RWalk {
+    let none = RExt { kind: RL::Vlan, off: 0, hlen: 0 };
+    let mut w = RWalk { link: None, n_exts: 0, exts: [none; 3], net: None, tr: None, ether_payload: None, fault: None, ip_version_mismatch: false };
+    let mut pos = 0usize;
+    let mut end = s.len();
+    let mut lim = Lim::Slice;
+    let mut et: u16;
+    match start {
+        Start::Ethernet => match eth(s) {
+            Ok(e) => {
+                w.link = Some(RL::Eth);
+                pos = 14;
+                et = e;
+            }
+            Err(f) => {
+                w.fault = Some(f);
+                return w;
+            }
+        },
+        Start::Sll => match sll(s) {
+            Ok(p) => {
+                w.link = Some(RL::Sll);
+                pos = 16;
+                match p {
+                    RSllProto::EtherType(e) => et = e,
+                    RSllProto::Other => return w,
+                }
+            }
+            Err(f) => {
+                w.fault = Some(f);
+                return w;
+            }
+        },
+        Start::EtherType(e) => et = e,
+        Start::Ip => {
+            return walk_ip(w, s, 0, end, lim, lax, None);
+        }
+    }
+    loop {
+        w.ether_payload = Some((et, pos, end - pos));
+        match et {
+            ET_VLAN | ET_QINQ | ET_QINQ_OLD => {
+                if w.n_exts == 3 {
+                    return w;
+                }
+                match vlan(&s[pos..end], lim) {
+                    Ok(e) => {
+                        w.exts[w.n_exts] = RExt { kind: RL::Vlan, off: pos, hlen: 4 };
+                        w.n_exts += 1;
+                        pos += 4;
+                        et = e;
+                    }
+                    Err(f) => {
+                        w.fault = Some(f.shifted(pos));
+                        return w;
+                    }
+                }
+            }
+            ET_MACSEC => {
+                if w.n_exts == 3 {
+                    return w;
+                }
+                match macsec(&s[pos..end], lim, lax) {
+                    Ok(m) => {
+                        w.exts[w.n_exts] = RExt { kind: RL::Macsec, off: pos, hlen: m.hlen };
+                        w.n_exts += 1;
+                        pos += m.hlen;
+                        end = pos + m.payload_len;
+                        lim = m.lim;
+                        match m.ether_type {
+                            Some(e) => et = e,
+                            None => {
+                                w.ether_payload = None;
+                                return w;
+                            }
+                        }
+                    }
+                    Err(f) => {
+                        w.fault = Some(f.shifted(pos));
+                        return w;
+                    }
+                }
+            }
+            ET_ARP => {
+                match arp(&s[pos..end], lim) {
+                    Ok(len) => w.net = Some(RNet::Arp { off: pos, len }),
+                    Err(f) => w.fault = Some(f.shifted(pos)),
+                }
+                return w;
+            }
+            ET_IPV4 => return walk_ip(w, s, pos, end, lim, lax, Some(false)),
+            ET_IPV6 => return walk_ip(w, s, pos, end, lim, lax, Some(true)),
+            _ => return w,
+        }
+    }
+}
+
+fn walk_ip(mut w: RWalk, s: &[u8], pos: usize, end: usize, lim: Lim, lax: bool, v6: Option<bool>) -> RWalk {
+    let d = &s[pos..end];
+    // the lax decoders select the IP version from the version nibble for both IP ether types
+    let v6 = if lax {
+        if let (Some(want6), false) = (v6, d.is_empty()) {
+            let nib = d[0] >> 4;
+            w.ip_version_mismatch = (want6 && nib == 4) || (!want6 && nib == 6);
+        }
+        None
+    } else {
+        v6
+    };
+    let r = match v6 {
+        None => ip(d, lim, lax),
+        Some(false) => ipv4(d, lim, lax),
+        Some(true) => ipv6(d, lim, lax),
+    };
+    match r {
+        Ok(ipr) => {
+            w.net = Some(RNet::Ip { off: pos, ip: ipr });
+            if let Some(f) = ipr.ext_fault {
+                // lax: stopped inside the extension headers
+                w.fault = Some(f.shifted(pos));
+                return w;
+            }
+            let tpos = pos + ipr.payload_off;
+            match transport(&s[tpos..tpos + ipr.payload_len], ipr.proto, ipr.fragmented, ipr.lim, lax) {
+                Ok(Some(t)) => w.tr = Some((tpos, t)),
+                Ok(None) => {}
+                Err(f) => w.fault = Some(f.shifted(tpos)),
+            }
+        }
+        Err(f) => w.fault = Some(f.shifted(pos)),
+    }
+    w
+}
